@@ -14,9 +14,9 @@ def nontrivial(req, obs):
 
 PROP = {
     "id": "C11",
-    "lean_targets": ["WmModel.Props.C07Locks", "WmModel.Props.C11Reg", 'WmModel.Props.C11'],
+    "lean_targets": ["WmModel.Props.C05Prod", "WmModel.Props.C07Locks", "WmModel.Props.C11Reg", 'WmModel.Props.C11'],
     "audit_module": "Audit.C11",
-    "theorems": ["Wm.GcReg.writer_excludes_readers", "Wm.GcReg.writers_exclusive", "Wm.GcReg.topic_mutex_exclusive", "Wm.GcReg.publish_and_subscribe_regions_exclusive", "Wm.GcReg.registry_exactly_one_sender", "Wm.GcReg.registry_mid_publish", "Wm.GcReg.registry_sender_count_eq", "Wm.GcReg.publish_sends_whole_batch", "Wm.GcReg.subscription_registered_once", "Wm.GcReg.c11_witness", 'Wm.GcTopic.exactly_one_sender', 'Wm.GcTopic.sender_count_eq', 'Wm.GcTopic.mid_publish', 'Wm.GcTopic.subscribe_excluded_during_publish'],
+    "theorems": ["Wm.GcProd.publications_are_the_log", "Wm.GcProd.exactly_once_when_all_acked", "Wm.GcProd.prod_witness", "Wm.GcReg.writer_excludes_readers", "Wm.GcReg.writers_exclusive", "Wm.GcReg.topic_mutex_exclusive", "Wm.GcReg.publish_and_subscribe_regions_exclusive", "Wm.GcReg.registry_exactly_one_sender", "Wm.GcReg.registry_mid_publish", "Wm.GcReg.registry_sender_count_eq", "Wm.GcReg.publish_sends_whole_batch", "Wm.GcReg.subscription_registered_once", "Wm.GcReg.c11_witness", 'Wm.GcTopic.exactly_one_sender', 'Wm.GcTopic.sender_count_eq', 'Wm.GcTopic.mid_publish', 'Wm.GcTopic.subscribe_excluded_during_publish'],
     "tie_theorems": [],
     "harness": "c11",
     "race": True,
@@ -36,7 +36,7 @@ PROP = {
     ],
     "assumptions": ['always-ack consumers: exactly once; nacking consumers: once per nack plus one'],
     "level_text": 'Proof (Lean 4), for every reachable state of the registry model - any number of Publish calls with any batches, Subscribe calls and unsubscribes, every interleaving of their critical regions - that whenever no call is inside its critical region every registered subscription has had senders started for exactly the persisted log (same messages, same multiplicity, same order); tied to the code by the function skeletons, by trace inclusion of recorded hook streams and by comparing the senders that really ran.',
-    "level_note": 'Proved twice: on M_topic (one topic, the critical region abstracted into a phase; Props/C11.lean) and on the full registry model M_reg with the real RWMutex/topic-mutex/closedLock protocol, any number of topics, Close and unsubscribes (Props/C11Reg.lean: registry_exactly_one_sender, registry_mid_publish); the recorded hook streams are checked against both models. exactly-once *delivery* combines this theorem with Props/C04 (redelivery only after nack) and the monitor.',
+    "level_note": 'Proved twice: on M_topic (one topic, the critical region abstracted into a phase; Props/C11.lean) and on the full registry model M_reg with the real RWMutex/topic-mutex/closedLock protocol, any number of topics, Close and unsubscribes (Props/C11Reg.lean: registry_exactly_one_sender, registry_mid_publish); the recorded hook streams are checked against both models. exactly-once *delivery* is proved end to end on the composition M_prod = M_reg || M_sub(me) for an arbitrary subscription (Props/C05Prod.lean: publications_are_the_log, exactly_once_when_all_acked - every position of the log of the topic has exactly one acked delivery, every other delivery of it was nacked).',
     "technique": "Lean 4 invariant proofs over LTS models of the subscription and the topic registry + trace-inclusion conformance and property monitors on hook-instrumented executions of the real GoChannel",
     "explanation": 'Proof (Lean 4), for every reachable state of the registry model - any number of Publish calls with any batches, Subscribe calls and unsubscribes, every interleaving of their critical regions - that whenever no call is inside its critical region every registered subscription has had senders started for exactly the persisted log (same messages, same multiplicity, same order); tied to the code by the function skeletons, by trace inclusion of recorded hook streams and by comparing the senders that really ran.',
 }
